@@ -516,6 +516,8 @@ fn build_matcher_tree(
                 // Action: -fprintf file format
                 // Args + 1: output file path
                 // Args + 2: format string
+                // (the format is examined before the file is created or emptied)
+                Printf::new(args[i + 2], None)?;
                 i += 1;
                 let file = get_or_create_file(args[i])?;
                 i += 1;
